@@ -216,6 +216,18 @@ impl RefTerm {
         for r in a.saturating_sub(1)..=b {
             ex.adopt_marks[r] = true;
         }
+        // rows that went into the scrollback were appended unchanged, mark included -
+        // except the region's last row: its continuation (the row below the region)
+        // stays behind, so whether it keeps its mark is not fixed by the statements
+        if a == 0 && !self.alt_showing() {
+            let len = self.scrollback.len();
+            for k in 0..n {
+                let i = len - n + k;
+                if a + k != b && !ex.sb_spec.contains(&i) {
+                    ex.sb_spec.push(i);
+                }
+            }
+        }
     }
 
     fn scroll_down(&mut self, a: usize, b: usize, n: usize, ex: &mut Expect) {
